@@ -217,3 +217,55 @@ class OptimizeContract(Contract):
                     same = False
                     break
         return [("free_inputs_are_the_unreduced_inputs", ok_inputs), ("equals_naive_contraction_for_every_path", bool(same))]
+
+
+@register
+class ApplyOptimizer(Contract):
+    """apply_optimizer(x): reinterprets x under `unfold` (left again before the next step), then reinterprets THAT term under
+    the optimize rules layered over the interpretation that was active at the call (so anything optimize has no rule for
+    is interpreted as the caller would); each context is entered and left exactly once, in that order.  Value preservation
+    of the two passes is the contracts of the rules they fire (UnfoldContractionGenericTuple, OptimizeContract) and of the
+    reinterpreter (RecursionReinterpret / StackReinterpret)."""
+
+    props = ("C08", "C03")
+    file = "funsor/optimizer.py"
+    qualname = "apply_optimizer"
+    total = True
+    mutants = (("optimised against the original term", "        return interpreter.reinterpret(expr)", "        return interpreter.reinterpret(x)"),)
+
+    def structures(self, tier):
+        yield "term", None
+
+    def build(self, p, st):
+        log = []
+        stack = ["caller"]
+
+        class Ctxm:
+            def __init__(self, name):
+                self.name = name
+
+            def __enter__(self):
+                stack.append(self.name)
+                log.append(("enter", self.name))
+                return self
+
+            def __exit__(self, *a):
+                log.append(("exit", stack.pop()))
+                return False
+
+        class Interpreter:
+            @staticmethod
+            def reinterpret(t):
+                log.append(("reinterpret", t, stack[-1]))
+                return ("re", stack[-1], t)
+
+        def Prioritized(*subs):
+            return Ctxm(("prioritized",) + tuple(subs))
+
+        ns = dict(unfold=Ctxm("unfold"), interpreter=Interpreter, PrioritizedInterpretation=Prioritized, optimize_base="optimize_base", get_interpretation=lambda: stack[-1])
+        return Ctx(args=("X",), namespace=ns, log=log, stack=stack)
+
+    def ensures(self, ctx, result):
+        opt = ("prioritized", "optimize_base", "caller")
+        exp_log = [("enter", "unfold"), ("reinterpret", "X", "unfold"), ("exit", "unfold"), ("enter", opt), ("reinterpret", ("re", "unfold", "X"), opt), ("exit", opt)]
+        return [("unfold_then_optimize_over_the_callers_interpretation", ctx.log == exp_log and result == ("re", opt, ("re", "unfold", "X")) and ctx.stack == ["caller"])]
